@@ -5,7 +5,7 @@
   Setting.  `m` = bucket capacity (any `m ≥ 1`; the code's MAX_BUCKET_SIZE is the generated `Gen.maxBucketSize`),
   `w` = identifier width (any; the code's is the generated `Gen.idWidth`), `me` = the own identifier (any bit list),
   `ops` = ANY finite history of `Op.add n` (insertion or update, with arbitrary identifier of width `w`, status, rtt,
-  address), `Op.removeBad`, `Op.setNode id bad rtt` (the environment changing the failure count / rtt of a stored
+  address), `Op.removeBad`, `Op.setNode id failed recent rtt` (the environment changing the failure count / rtt of a stored
   node).  `run m (RT.init me) ops` is the table after the history.  No bound on the number of nodes or steps.
 -/
 import Ipv8.C14.Closest
